@@ -48,7 +48,7 @@ func c20RunCLI(dir string, args ...string) (out string, code int) {
 	ctx, cancel := context.WithTimeout(context.Background(), 5*time.Minute)
 	defer cancel()
 	cm := exec.CommandContext(ctx, exe, full...)
-	cm.Env = append(os.Environ(), "CUE_CACHE_DIR="+filepath.Join(dir, ".cache"), "HOME="+dir)
+	cm.Env = append(os.Environ(), "GOMAXPROCS=2", "CUE_CACHE_DIR="+filepath.Join(dir, ".cache"), "HOME="+dir)
 	b, err := cm.CombinedOutput()
 	os.RemoveAll(filepath.Join(dir, ".verif-out"))
 	os.RemoveAll(filepath.Join(dir, ".cache"))
@@ -93,7 +93,7 @@ func c20ReadBack(dir string, p c20Pkg) (q c20Pkg, touched []string) {
 }
 
 func c20CLI(c *Cfg, r *Rng) {
-	n := c.Pick(30, 120)
+	n := c.Pick(3, 120)
 	seeds := c20LoadSeeds()
 	base, err := os.MkdirTemp("", "c20-cli-")
 	if err != nil {
@@ -101,8 +101,16 @@ func c20CLI(c *Cfg, r *Rng) {
 		return
 	}
 	defer os.RemoveAll(base)
-	done := 0
-	for try := 0; done < n && try < n*6; try++ {
+	// candidates; their library route (trim.Files in a worker: it may not survive) is
+	// evaluated for all of them in one batch
+	type cand struct {
+		p      c20Pkg
+		origin string
+		sub    *Rng
+	}
+	var cands []cand
+	var ccases []*c20Case
+	for try := 0; try < n*2; try++ {
 		sub := r.Sub()
 		var p c20Pkg
 		origin := ""
@@ -129,18 +137,32 @@ func c20CLI(c *Cfg, r *Rng) {
 			p, _ = c20GenPackage(sub, sub.Chance(1, 8))
 			origin = "generated"
 		}
-		// the library route first, in a worker (it may not survive)
-		res, culprit, _ := c20RunWorker(c, []c20Job{{I: 0, Pkg: p}}, c20PerCaseTimeout())
-		if culprit >= 0 {
-			continue // reported by the library sweeps
+		cands = append(cands, cand{p, origin, sub})
+		ccases = append(ccases, &c20Case{origin: "cli:" + origin, pkg: p})
+	}
+	c20RunCasesOpt(c, ccases, false, false)
+	done := 0
+	for k, cd := range cands {
+		if done >= n {
+			break
 		}
-		w, ok := res[0]
-		if !ok || w.Skipped == "load-error" || w.Skipped == "eval-panic" || w.Skipped == "format-error" {
+		p, origin, sub := cd.p, cd.origin, cd.sub
+		w := ccases[k].res
+		if w == nil || w.skipped == "not-run" || w.skipped == "load-error" || w.skipped == "eval-panic" || w.skipped == "format-error" {
+			continue
+		}
+		crashed := false
+		for _, f := range w.fails {
+			if strings.HasPrefix(f.class, "trim-stack-overflow") || strings.HasPrefix(f.class, "trim-hang") || strings.HasPrefix(f.class, "trim-crash") {
+				crashed = true // reported by the library sweeps
+			}
+		}
+		if crashed {
 			continue
 		}
 		libChangedEval := false
-		for _, f := range w.Fails {
-			if f.Class == "eval-changed" || f.Class == "trimmed-unloadable" {
+		for _, f := range w.fails {
+			if f.class == "eval-changed" || f.class == "trimmed-unloadable" {
 				libChangedEval = true
 			}
 		}
@@ -174,7 +196,7 @@ func c20CLI(c *Cfg, r *Rng) {
 		q, touched := c20ReadBack(dir, p)
 		c.Direct(code == 0 || code == 1, "cli-crash", fmt.Sprintf("cue trim died (exit %d): %s", code, c20clip(out, 300)), replay)
 		switch {
-		case w.Skipped == "package-error" || (berr == nil && !before.valid):
+		case w.skipped == "package-error" || (berr == nil && !before.valid):
 			// cmd refuses packages that fail Validate
 			c.Count("cli/rejected-invalid-package")
 			c.Direct(code != 0 && q.equal(p), "cli-writes-invalid-package", fmt.Sprintf("cue trim on a package with errors: exit %d, files changed: %v", code, !q.equal(p)), replay)
@@ -197,7 +219,7 @@ func c20CLI(c *Cfg, r *Rng) {
 			continue
 		}
 		// files on disk == format.Node of the library's trimmed syntax trees
-		c.Direct(q.equal(w.Trimmed), "cli-differs-from-library", "files written by cue trim differ from trim.Files + format.Node: "+c20TextDiff(w.Trimmed, q), replay)
+		c.Direct(q.equal(w.trimmed), "cli-differs-from-library", "files written by cue trim differ from trim.Files + format.Node: "+c20TextDiff(w.trimmed, q), replay)
 		// files whose content did not change are not rewritten
 		for _, t := range touched {
 			for i, nme := range p.Names {
